@@ -39,6 +39,16 @@ def model_check(ctx, r):
     if res.violated:
         r.machinery_error = "AlgLoop.tla: %s violated on the protocol model" % res.violated
         return None
+    # the nesting design (NestedRuns.tla), exhaustively for 2 (quick) / 3 (thorough) objects, exceptions included
+    body = "EXTENDS NestedRuns\nBounded == \\A o \\in Objs : iter[o] <= 3\n"
+    cfg = ("SPECIFICATION SpecRaise\nCONSTANTS\n Objs = {%s}\n Budgets = {0, 1, 2}\n MaxDepth = %d\nCONSTRAINT Bounded\n" % (("1, 2, 3", 4) if ctx.thorough else ("1, 2", 4))
+           + "INVARIANT TypeOK\nINVARIANT NoReentrancy\nINVARIANT RunWithinBudget\nPROPERTY RunNeverOvershoots\nPROPERTY LIFO\nPROPERTY CounterOnlyByOwnUpdate\n")
+    tlc.write_mc(wd, "MC_NestedRuns", body, cfg)
+    res2 = tlc.run_tlc(wd, "MC_NestedRuns", workers=16, timeout=900, coverage=False)
+    r.add_tlc(res2, "NestedRuns")
+    if res2.violated:
+        r.machinery_error = "NestedRuns.tla: %s violated on the nesting model" % res2.violated
+        return None
     # second run for the labelled graph (coverage and dot dump do not combine well)
     cmd = ["java", "-XX:+UseParallelGC", "-DTLA-Library=" + tlc.SPEC_DIR, "-cp", tlc.JARS, "tlc2.TLC", "-workers", "1", "-metadir", os.path.join(wd, "meta2"),
            "-noGenerateSpecTE", "-deadlock", "-dump", "dot,actionlabels", dot, "-config", os.path.join(wd, "MC_AlgLoop.cfg"), os.path.join(wd, "MC_AlgLoop.tla")]
@@ -119,6 +129,103 @@ def parse_hook_trace(path):
         elif ev in ("linop.call", "prox.call"):
             calls.append(e)
     return algs, calls
+
+
+def nested_traces(path, origin, default_unwind):
+    """ndjson -> one trace per job / test of the WHOLE interleaved event stream (all objects), objects renumbered 1..K."""
+    per_pid = {}
+    if not os.path.exists(path):
+        return []
+    for ln in open(path):
+        try:
+            e = json.loads(ln)
+        except ValueError:
+            continue
+        per_pid.setdefault(e.get("pid", 0), []).append(e)
+    out = []
+    code = {"alg.update.begin": "ub", "alg.update.end": "ue", "alg.done": "done", "app.run.begin": "rb", "app.run.end": "re"}
+
+    def flush(pid, label, evs, unwind):
+        if not evs:
+            return
+        ids = {}
+        iter0, budget0, tev = [], [], []
+        for e in evs:
+            uid = e["alg"] if e["ev"].startswith("app.") else e["uid"]
+            if uid not in ids:
+                ids[uid] = len(ids) + 1
+                iter0.append(None)
+                budget0.append(None)
+            o = ids[uid]
+            c = code[e["ev"]]
+            if c != "rb" and iter0[o - 1] is None:
+                iter0[o - 1] = e["iter"] - (1 if c == "ue" else 0)
+                budget0[o - 1] = e["max_iter"]
+            tev.append({"e": c, "o": o, "iter": int(e.get("iter", 0)), "max_iter": int(e.get("max_iter", 0)), "done": bool(e.get("done", False))})
+        out.append({"id": "%s/%d/%s#%d" % (origin, pid, label, len(out)), "iter0": [0 if v is None else int(v) for v in iter0],
+                    "budget0": [0 if v is None else int(v) for v in budget0], "max_unwind": int(unwind), "ev": tev,
+                    "classes": sorted({e.get("cls", "?") for e in evs})})
+
+    for pid, evs in per_pid.items():
+        evs.sort(key=lambda e: e["seq"])
+        label, cur, unwind, depth, objs = "start", [], default_unwind, 0, set()
+        for e in evs:
+            ev = e["ev"]
+            if ev == "job":
+                flush(pid, label, cur, unwind)
+                label, cur, unwind, depth, objs = str(e["k"])[-60:], [], default_unwind, 0, set()
+            elif ev == "job.raise":
+                unwind = 99
+            elif ev in code:
+                cur.append(e)
+                objs.add(e["alg"] if ev.startswith("app.") else e["uid"])
+                if ev.endswith(".begin"):
+                    depth += 1
+                elif ev.endswith(".end"):
+                    depth -= 1
+                # long streams are cut where no frame is open (pure bookkeeping: an unbalanced stream is never cut)
+                if depth == 0 and (len(cur) >= 1500 or len(objs) >= 24):
+                    flush(pid, label, cur, unwind)
+                    cur, objs = [], set()
+        flush(pid, label, cur, unwind)
+    return out
+
+
+def validate_nested(r, traces, wd, label):
+    if not traces:
+        return
+    maxk = max(len(t["iter0"]) for t in traces)
+    slim = [{k: t[k] for k in ("id", "iter0", "budget0", "max_unwind", "ev")} for t in traces]
+    sub = os.path.join(wd, "nested_" + label)
+    os.makedirs(sub, exist_ok=True)
+    res, rej = tracecheck.validate("NestedTrace", slim, sub, constants=["Objs <- MCObjs", "Budgets = {0}", "MaxDepth = 1000000"], timeout=1500,
+                                   defs="MCObjs == 1..%d\n" % maxk)
+    r.add_tlc(res, "nested_" + label)
+    if res.violated:
+        r.violations.append(core.Violation(["SPEC"], "alg_protocol", {"kind": "nested_invariant", "invariant": res.violated, "origin": label},
+                                           "invariant %s of NestedRuns.tla fails on a recorded execution" % res.violated, {}))
+    byid = {t["id"]: t for t in traces}
+    for tid, line in rej.items():
+        t = byid.get(tid)
+        if t is None:
+            continue
+        cur = t["ev"][line - 1] if line - 1 < len(t["ev"]) else None
+        r.violations.append(core.Violation(["SPEC"], "alg_protocol", {"kind": "nesting_rejected", "classes": t["classes"], "origin": label},
+                                           "event stream %s (%s) rejected by NestedTrace at event %d: %s; preceding: %s" % (tid, t["classes"], line, cur, t["ev"][max(0, line - 5):line - 1]),
+                                           {"line": line}))
+    r.notes.append("nested streams (%s): %d traces, %d events, up to %d objects, deepest nesting %d, %d rejected" % (
+        label, len(traces), sum(len(t["ev"]) for t in traces), maxk, max(_depth(t) for t in traces), len(rej)))
+
+
+def _depth(t):
+    d = m = 0
+    for e in t["ev"]:
+        if e["e"] in ("ub", "rb"):
+            d += 1
+            m = max(m, d)
+        elif e["e"] in ("ue", "re"):
+            d -= 1
+    return m
 
 
 def to_traces(algs, origin):
@@ -210,6 +317,7 @@ def run(ctx):
     algs, calls = parse_hook_trace(trp)
     traces = to_traces(algs, "driver")
     validate(r, traces, wd, "driver")
+    validate_nested(r, nested_traces(trp, "driver", 0), wd, "driver")
     nprobe = sum(1 for t in targets if t.get("probe"))
     r.notes.append("driver: %d jobs, %d Alg objects traced, %d early-stop probes fired" % (len(jobs), len(traces), nprobe))
     if len(r.samples) < 3 and traces:
@@ -222,11 +330,13 @@ def run(ctx):
     strp = os.path.join(wd, "suite.ndjson")
     env2 = dict(os.environ)
     env2[core.GUARD] = strp
-    p = subprocess.run([sys.executable, "-m", "pytest", "-q", "-x", "-p", "no:cacheprovider"] + suite, cwd=core.REPO, env=env2,
+    env2["PYTHONPATH"] = core.ROOT + os.pathsep + env2.get("PYTHONPATH", "")
+    p = subprocess.run([sys.executable, "-m", "pytest", "-q", "-x", "-p", "no:cacheprovider", "-p", "harness.pytest_marks"] + suite, cwd=core.REPO, env=env2,
                        stdout=subprocess.PIPE, stderr=subprocess.STDOUT, text=True, timeout=3000)
     salgs, scalls = parse_hook_trace(strp)
     straces = to_traces(salgs, "suite")
     validate(r, straces, wd, "suite")
+    validate_nested(r, nested_traces(strp, "suite", 99), wd, "suite")
     r.notes.append("suite (%s): pytest exit %d, %d Alg objects traced, %d linop/prox call events" % (" ".join(suite), p.returncode, len(straces), len(scalls)))
     # purity / advertised-shape on every traced Linop / Prox call of driver and suite (binds C02/C03 to suite executions)
     bad_mut = [c for c in calls + scalls if c["in_crc0"] != c["in_crc1"]]
